@@ -42,6 +42,13 @@ var ModuleNames = map[string]string{
 	"reporter":  reportertypes.ModuleName,
 }
 
+func nsNum(t time.Time) Num {
+	if t.IsZero() || t.UnixNano() < 0 {
+		return Num{}
+	}
+	return NumI64(t.UnixNano())
+}
+
 func ms(t time.Time) Num {
 	if t.IsZero() || t.UnixMilli() < 0 {
 		return Num{}
@@ -293,7 +300,7 @@ func (w *World) projDispute() Rec {
 	_ = w.App.DisputeKeeper.Disputes.Walk(w.Ctx, nil, func(id uint64, d disputetypes.Dispute) (bool, error) {
 		rec := Rec{"id": int(id), "hash": hex.EncodeToString(d.HashId)[:12], "cat": int(d.DisputeCategory), "status": int(d.DisputeStatus), "round": int(d.DisputeRound),
 			"slash": NumInt(d.SlashAmount), "burn": NumInt(d.BurnAmount), "fee": NumInt(d.DisputeFee), "feetotal": NumInt(d.FeeTotal),
-			"start": ms(d.DisputeStartTime), "end": ms(d.DisputeEndTime), "open": d.Open, "pending": d.PendingExecution, "block": int(d.BlockNumber),
+			"start": ms(d.DisputeStartTime), "end": ms(d.DisputeEndTime), "startn": nsNum(d.DisputeStartTime), "endn": nsNum(d.DisputeEndTime), "open": d.Open, "pending": d.PendingExecution, "block": int(d.BlockNumber),
 			"rep": w.Name(d.InitialEvidence.Reporter), "prev": d.PrevDisputeIds}
 		if d.VoterReward.IsNil() {
 			rec["vreward"] = Num{}
@@ -301,7 +308,7 @@ func (w *World) projDispute() Rec {
 			rec["vreward"] = NumInt(d.VoterReward)
 		}
 		if v, err := w.App.DisputeKeeper.Votes.Get(w.Ctx, id); err == nil {
-			rec["vote"] = Rec{"start": ms(v.VoteStart), "end": ms(v.VoteEnd), "result": int(v.VoteResult), "executed": v.Executed}
+			rec["vote"] = Rec{"start": ms(v.VoteStart), "end": ms(v.VoteEnd), "startn": nsNum(v.VoteStart), "endn": nsNum(v.VoteEnd), "result": int(v.VoteResult), "executed": v.Executed}
 		}
 		if vc, err := w.App.DisputeKeeper.VoteCountsByGroup.Get(w.Ctx, id); err == nil {
 			g := func(c disputetypes.VoteCounts) []Num { return []Num{NumU64(c.Support), NumU64(c.Against), NumU64(c.Invalid)} }
